@@ -204,96 +204,169 @@ def render(ctx: Ctx) -> List[Ob]:
             elif len(segs) == 6 and (segs[2] == segs[4] or segs[3] == segs[5]):
                 ok, why = False, "compact style does not distinguish nodes with children"
         O("common:CONNECTORS", f"style '{name}' is well-formed", ok, why)
+    from .util import cond_texts, exit_cases, find_under, not_after, path_conds, reaching_values, resolve_expr
+
+    def T(f_, label, ok, why="", node=None):
+        obs.append(ctx.tri("RENDER", ["C16"], f_, label, node, ok, why))
+
     f = m.func("Node._get_prefix")
     sp, lsp = [p for p in f.positional_params() if p != f.self_name][:2]
-    ifs = [n for n in f.body if isinstance(n, ast.If) and has(f"len({sp})", n.test)]
-    ok = False
-    S: Dict[str, object] = {}
-    if ifs:
-        ch = _if_chain(ifs[0])
-        tests = [norm(t) if t is not None else "else" for t, _ in ch]
-        ok = tests == [f"len({sp}) == 4", f"len({sp}) == 6", "else"] and isinstance(ch[2][1][-1], ast.Raise) and "ValueError" in norm(ch[2][1][-1])
-        if ok:
-            e6 = one(f"$s0, $s1, $s2, $s3, $s4, $s5 = {sp}", ch[1][1])
-            ok = e6 is not None
-            if ok:
-                S = e6[1]
-                ok = has(f"$s0, $s1, $s2, $s3 = {sp}", ch[0][1], S) and has("$s4 = $s2", ch[0][1], S) and has("$s5 = $s3", ch[0][1], S)
-    O(f, "_get_prefix accepts 4- and 6-segment styles (4: s4=s2, s5=s3) and rejects others", ok, "custom 4- and 6-tuples must work in every style")
+    # --- which style segment does a name stand for, for 4- and for 6-segment styles?
+    seg: Dict[int, Dict[str, int]] = {4: {}, 6: {}}
+    recognised = True
+    rejects = False
+    for n in iter_own(f.node):
+        if isinstance(n, ast.Assign) and len(n.targets) == 1 and isinstance(n.targets[0], ast.Tuple) and all(isinstance(t, ast.Name) for t in n.targets[0].elts):
+            names = [t.id for t in n.targets[0].elts]
+            ts = cond_texts(path_conds(ctx, f, n))
+            src = n.value
+            lens = [k for k in (4, 6) if f"len({sp}) == {k}" in ts] or [k for k in (4, 6) if f"not (len({sp}) == {10 - k})" in ts and len(names) == k]
+            if norm(src) == sp and len(lens) == 1 and len(names) == lens[0]:
+                for i, nm_ in enumerate(names):
+                    seg[lens[0]][nm_] = i
+            elif isinstance(src, ast.Tuple) and len(src.elts) == len(names) and lens:
+                for nm_, v_ in zip(names, src.elts):
+                    if isinstance(v_, ast.Name) and v_.id in seg[lens[0]]:
+                        seg[lens[0]][nm_] = seg[lens[0]][v_.id]
+    for n in iter_own(f.node):
+        if isinstance(n, ast.Assign) and len(n.targets) == 1 and isinstance(n.targets[0], ast.Name) and isinstance(n.value, ast.Name):
+            ts = cond_texts(path_conds(ctx, f, n))
+            for k in (4, 6):
+                if f"len({sp}) == {k}" in ts and n.value.id in seg[k]:
+                    seg[k][n.targets[0].id] = seg[k][n.value.id]
+        if isinstance(n, ast.Raise) and "ValueError" in norm(n):
+            ts = cond_texts(path_conds(ctx, f, n))
+            if {f"not (len({sp}) == 4)", f"not (len({sp}) == 6)"} <= ts or {f"not (len({sp}) == 4)", f"not len({sp}) == 6"} <= ts:
+                rejects = True
+    # 4-segment styles reuse the plain connectors for the compact positions
+    names6 = sorted(seg[6], key=lambda k_: seg[6][k_])
+    ok: Optional[bool] = None
+    if len(seg[6]) >= 6 and seg[4]:
+        ok = [seg[6][k_] for k_ in names6] == list(range(6)) and [seg[4].get(k_) for k_ in names6] == [0, 1, 2, 3, 2, 3] and rejects
+    T(f, "_get_prefix accepts 4- and 6-segment styles (4: s4=s2, s5=s3) and rejects others", ok,
+      f"segments for 6: {seg[6]}, for 4: {seg[4]}, other lengths rejected: {rejects}; custom 4- and 6-tuples must work in every style")
     il = [g for g in f.nested if len(g.positional_params()) == 1]
-    ok = False
-    iln = il[0].name if il else "_is_last"
+    okl: Optional[bool] = None
+    iln = None
     for g in il:
-        p = g.positional_params()[0]
+        p_ = g.positional_params()[0]
         r = [n for n in iter_own(g.node) if isinstance(n, ast.Return)]
-        if len(r) == 1 and match(f"{p} is {p}._parent._children[-1]", r[0].value) is not None:
-            ok = True
+        if len(r) == 1 and r[0].value is not None:
             iln = g.name
-    O(f, "_is_last: identity comparison with the parent's last child (not a kind-aware override, not ==)", ok, "is-last must refer to the full sibling list, by identity")
-    lps = [n for n in iter_own(f.node) if isinstance(n, ast.For)]
-    ok = len(lps) == 1 and match("self.get_parent_list()", lps[0].iter) is not None and bool(S)
-    if ok:
+            okl = match(f"{p_} is {p_}._parent._children[-1]", r[0].value) is not None or match(f"{p_}._parent._children[-1] is {p_}", r[0].value) is not None
+    T(f, "_is_last: identity comparison with the parent's last child (not a kind-aware override, not ==)", okl, "is-last must refer to the full sibling list, by identity")
+    # --- every appended segment with the conditions it depends on
+    apps = [(n, e_) for n, e_ in find("$parts.append($s)", f.node) if e_["$s"] in seg[6]]
+    lps = [n for n in iter_own(f.node) if isinstance(n, ast.For) and match("self.get_parent_list()", n.iter) is not None and isinstance(n.target, ast.Name)]
+    ok_anc: Optional[bool] = None
+    ok_own: Optional[bool] = None
+    if apps and iln is not None and len(lps) == 1 and len({e_["$parts"] for _n, e_ in apps}) == 1:
         lp = lps[0]
-        pv = norm(lp.target)
-        e = match("$d += 1", lp.body[0])
-        ok = e is not None and match(f"if $d <= {lsp}:\n    continue", lp.body[1], e) is not None
-        last = lp.body[-1]
-        e2 = match(f"if {iln}({pv}):\n    $parts.append($s0)\nelse:\n    $parts.append($s1)", last, {k: v for k, v in S.items() if k in ("$s0", "$s1")})
-        ok = ok and e2 is not None
-        if ok:
-            S = {**S, **e, **e2}
-    O(f, "one indent segment per ancestor beyond lstrip: s0 below a last sibling, s1 otherwise", ok, "the prefix must encode for every ancestor whether it is a last sibling")
-    ok = False
-    if "$d" in S and "$parts" in S:
-        own = [n for n in f.body if isinstance(n, ast.If) and match(f"$d >= {lsp}", n.test, S) is not None]
-        if own:
-            ok = match(
-                f"if self._children:\n    if {iln}(self):\n        $parts.append($s4)\n    else:\n        $parts.append($s5)\n"
-                f"else:\n    if {iln}(self):\n        $parts.append($s2)\n    else:\n        $parts.append($s3)", own[0].body[0], S) is not None
-        ok = ok and any(match("''.join($parts)", r.value, S) is not None for r in [n for n in iter_own(f.node, into_lambda=False) if isinstance(n, ast.Return) and n.value is not None])
-    O(f, "own connector: (has children, last) -> s4/s5, (leaf, last) -> s2/s3", ok, "the connector must encode is-last and (compact styles) has-children")
+        pv = lp.target.id
+        anc_tab: Dict[str, int] = {}
+        own_tab: Dict[str, int] = {}
+        anc_guard_ok = True
+        own_guard_ok = True
+        for n, e_ in apps:
+            pcs = path_conds(ctx, f, n)
+            ts = cond_texts(pcs)
+            idx6 = seg[6][e_["$s"]]
+            inside = any(n is x for x in ast.walk(lp))
+            who = pv if inside else "self"
+            last = f"{iln}({who})" in ts
+            notlast = f"not {iln}({who})" in ts
+            if not (last or notlast):
+                (anc_tab if inside else own_tab)["?" + norm(n)] = idx6
+                continue
+            if inside:
+                anc_tab["last" if last else "other"] = idx6
+                cnt = [t for t in ts if lsp in t]
+                if not (len(cnt) == 1 and (match(f"not ($d <= {lsp})", P_(cnt[0])) is not None or match(f"$d > {lsp}", P_(cnt[0])) is not None)):
+                    anc_guard_ok = False
+                else:
+                    dvar = (match(f"not ($d <= {lsp})", P_(cnt[0])) or match(f"$d > {lsp}", P_(cnt[0])))["$d"]
+                    incs = [x for x, _e in find(f"{dvar} += 1", lp)]
+                    if len(incs) != 1 or not not_after(ctx, f, incs[0], n) or path_conds(ctx, f, incs[0]) != [] and any(
+                            any(a_ is y for y in ast.walk(lp)) for a_, _p in path_conds(ctx, f, incs[0])):
+                        anc_guard_ok = False
+            else:
+                kids = "self._children" in ts or "self.children" in ts
+                leaf = "not self._children" in ts or "not self.children" in ts
+                own_tab[("kids" if kids else "leaf" if leaf else "?") + ("-last" if last else "-other")] = idx6
+                cnt = [t for t in ts if lsp in t]
+                if not (len(cnt) == 1 and (match(f"$d >= {lsp}", P_(cnt[0])) is not None or match(f"not ($d < {lsp})", P_(cnt[0])) is not None)):
+                    own_guard_ok = False
+        ok_anc = anc_tab == {"last": 0, "other": 1} and anc_guard_ok
+        ok_own = own_tab == {"kids-last": 4, "kids-other": 5, "leaf-last": 2, "leaf-other": 3} and own_guard_ok
+        rets = [c for c in exit_cases(ctx, f, ("return",)) if c.value is not None]
+        parts = apps[0][1]["$parts"]
+        if ok_own and not (len(rets) == 1 and match(f"''.join({parts})", rets[0].value) is not None):
+            ok_own = False
+        why_a, why_o = f"ancestor segments {anc_tab}", f"own connector {own_tab}"
+    else:
+        why_a = why_o = "segment appends not recognised"
+    T(f, "one indent segment per ancestor beyond lstrip: s0 below a last sibling, s1 otherwise", ok_anc, why_a + ": the prefix must encode for every ancestor whether it is a last sibling")
+    T(f, "own connector: (has children, last) -> s4/s5, (leaf, last) -> s2/s3", ok_own, why_o + ": the connector must encode is-last and (compact styles) has-children")
     rl = m.func("Node._render_lines")
-    lps = [n for n in iter_own(rl.node) if isinstance(n, ast.For)]
-    ok = len(lps) == 1 and match("self.iterator(add_self=add_self)", lps[0].iter) is not None
+    lps = [n for n in iter_own(rl.node) if isinstance(n, ast.For) and isinstance(n.target, ast.Name)]
+    ok = None
     lsv = None
-    if ok:
+    if len(lps) == 1:
         lp = lps[0]
-        nv = norm(lp.target)
-        pf = one(f"$pf = {nv}._get_prefix(style, $ls)", lp)
-        ok = pf is not None
-        if ok:
-            lsv = pf[1]["$ls"]
-            ys = [x for st in lp.body for x in ast.walk(st) if isinstance(x, ast.Yield)]
-            ok = len(ys) == 1 and match("$pf + $s", ys[0].value, {"$pf": pf[1]["$pf"]}) is not None \
-                and not any(isinstance(x, (ast.Continue, ast.Break)) for st in lp.body for x in ast.walk(st))
-    O(rl, "_render_lines yields prefix + rendering exactly once per node of the default (pre-order) walk", ok, "one line per node, in pre-order")
-    ok = lsv is not None and has(f"{lsv} = self.depth()", rl.node) and has(f"if not add_self:\n    {lsv} += 1", rl.node) and has("if not self._parent:\n    add_self = False", rl.node)
-    O(rl, "left-strip: own depth (+1 without add_self); the system root is never rendered", ok, "branches must be rendered relative to the start node")
+        nv = lp.target.id
+        ys = [x for x in ast.walk(lp) if isinstance(x, ast.Yield)]
+        all_ys = [x for x in iter_own(rl.node) if isinstance(x, (ast.Yield, ast.YieldFrom))]
+        if len(ys) == 1 and len(all_ys) == 1 and isinstance(ys[0].value, ast.BinOp) and isinstance(ys[0].value.op, ast.Add):
+            left = resolve_expr(ctx, rl, ys[0], ys[0].value.left)
+            e_ = match(f"{nv}._get_prefix(style, $$ls)", left)
+            ok = e_ is not None and match("self.iterator(add_self=add_self)", lp.iter) is not None \
+                and not any(isinstance(x, (ast.Continue, ast.Break, ast.Return)) for st in lp.body for x in ast.walk(st)) \
+                and not [a_ for a_, _p in path_conds(ctx, rl, ys[0]) if any(a_ is y or getattr(a_, "_orig", None) is y for y in ast.walk(lp))]
+            if e_ is not None and isinstance(e_["$$ls"], ast.Name):
+                lsv = e_["$$ls"].id
+    T(rl, "_render_lines yields prefix + rendering exactly once per node of the default (pre-order) walk", ok, "one line per node, in pre-order")
+    ok = None
+    if lsv is not None:
+        base = [norm(e_["$$v"]) for _n, e_ in find(f"{lsv} = $$v", rl.node)]
+        incs = find_under(ctx, rl, f"{lsv} += 1", [("add_self", False)])
+        all_inc = [n for n in iter_own(rl.node) if isinstance(n, ast.AugAssign) and norm(n.target) == lsv]
+        offs = find_under(ctx, rl, "add_self = False", [("self._parent", False)]) or find_under(ctx, rl, "add_self = False", [("self._parent is None", True)])
+        ok = base == ["self.depth()"] and len(incs) == 1 and len(all_inc) == 1 and len(offs) == 1 and not_after(ctx, rl, incs[0][0], offs[0][0])
+    T(rl, "left-strip: own depth (+1 without add_self); the system root is never rendered", ok, "branches must be rendered relative to the start node")
     fi = m.func("Node.format_iter")
-    lst = [n for n in fi.body if isinstance(n, ast.If) and match("style == 'list'", n.test) is not None]
-    ok = len(lst) == 1
-    if ok:
-        lps = [n for n in lst[0].body if isinstance(n, ast.For)]
-        ok = len(lps) == 1 and match("self.iterator(add_self=add_self)", lps[0].iter) is not None \
-            and sum(isinstance(x, ast.Yield) for st in lps[0].body for x in ast.walk(st)) == 2 and isinstance(lst[0].body[-1], ast.Return)
-    O(fi, "list style emits the renderings only, once per node of the walk", ok, "style='list' has no prefixes")
+    ys = [c for c in exit_cases(ctx, fi, ("yield",))]
+    lst = [c for c in ys if any(p_ and norm(a_) == "style == 'list'" for a_, p_ in c.conds)]
+    oth = [c for c in ys if any((not p_) and norm(a_) == "style == 'list'" for a_, p_ in c.conds)]
+    ok = None
+    lst_loops = []
+    if lst and oth and len(lst) + len(oth) == len(ys):
+        lst_loops = [n for n in iter_own(fi.node) if isinstance(n, ast.For) and all(any(c.stmt is x for x in ast.walk(n)) for c in lst)]
+        ok = len(lst_loops) == 1 and match("self.iterator(add_self=add_self)", lst_loops[0].iter) is not None and len(lst) <= 2 \
+            and all(norm(c.value) in (f"repr({norm(lst_loops[0].target)})", f"repr.format(node={norm(lst_loops[0].target)})") for c in lst) \
+            and all(isinstance(c.stmt, ast.YieldFrom) and "_render_lines" in norm(c.value) for c in oth)
+    T(fi, "list style emits the renderings only, once per node of the walk", ok, "style='list' has no prefixes")
     for g in (fi, rl):
-        ds = [n for n in iter_own(g.node) if isinstance(n, ast.If) and any(isinstance(x, ast.Assign) and "DEFAULT_RENDER_REPR" in norm(x) for x in n.body)]
-        ok = len(ds) == 1 and match("repr is None", ds[0].test) is not None and match("repr = self.DEFAULT_RENDER_REPR", ds[0].body[0]) is not None
-        O(g, f"{g.name}: the default rendering is the node class's DEFAULT_RENDER_REPR and replaces only repr=None", ok,
+        ds = find("repr = $$v", g.node)
+        ok = None
+        if ds:
+            ok = all(norm(e_["$$v"]) == "self.DEFAULT_RENDER_REPR" and any(p_ and norm(a_) == "repr is None" for a_, p_ in path_conds(ctx, g, n_)) for n_, e_ in ds)
+        T(g, f"{g.name}: the default rendering is the node class's DEFAULT_RENDER_REPR and replaces only repr=None", ok,
           "repr='' is a legal (empty) rendering; typed nodes have their own default: list style and connector styles must agree")
     rf = [x for x in ast.walk(rl.node) if isinstance(x, ast.Call) and isinstance(x.func, ast.Attribute) and x.func.attr == "format" and norm(x.func.value) == "repr"]
-    O(rl, "_render_lines formats only the repr template (the prefix is concatenated, never interpreted)", len(rf) == 1,
+    anyfmt = [x for x in ast.walk(rl.node) if isinstance(x, ast.Call) and isinstance(x.func, ast.Attribute) and x.func.attr == "format"]
+    T(rl, "_render_lines formats only the repr template (the prefix is concatenated, never interpreted)", (len(rf) == 1 and len(anyfmt) == 1) if anyfmt else None,
       "custom connector tuples containing braces must be emitted verbatim")
     # add_self is only ever overridden by the system-root guard
     for g in (fi, rl):
         asg = [n for n in iter_own(g.node) if isinstance(n, ast.Assign) and any(norm(t) == "add_self" for t in n.targets)]
-        ok = all(norm(a.value) == "False" and isinstance(m.parent_of(a), ast.If) and norm(m.parent_of(a).test) in ("not self._parent", "self._parent is None") for a in asg)
-        O(g, f"{g.name}: add_self is the caller's choice (only the system root is forced off)", ok,
+        ok = all(norm(a_.value) == "False" and ({"not self._parent"} & cond_texts(path_conds(ctx, g, a_)) or {"self._parent is None"} & cond_texts(path_conds(ctx, g, a_))) for a_ in asg)
+        T(g, f"{g.name}: add_self is the caller's choice (only the system root is forced off)", bool(ok),
           "add_self=False on a branch must omit the start node, add_self=True must include it, in every style")
-    if len(lst) == 1:
-        ok = has("if not self._parent:\n    add_self = False", lst[0].body) or has("if self._parent is None:\n    add_self = False", lst[0].body)
-        O(fi, "list style never renders the invisible system root", ok,
+    if lst_loops:
+        offs = [n for n in iter_own(fi.node) if isinstance(n, ast.Assign) and norm(n) == "add_self = False"
+                and any(p_ and norm(a_) == "style == 'list'" for a_, p_ in path_conds(ctx, fi, n))]
+        ok = len(offs) == 1 and not_after(ctx, fi, offs[0], lst_loops[0])
+        T(fi, "list style never renders the invisible system root", ok,
           "tree.format(style='list', title=...) would emit an extra line for the system root")
     # render path calls no kind-sensitive override
     seen: Set[Func] = set()
@@ -315,16 +388,43 @@ def render(ctx: Ctx) -> List[Ob]:
       "" if not offenders else f"{offenders[0][0].qualname} calls {norm(offenders[0][1])} -> {offenders[0][2].qualname}: in a typed tree "
       "is-last/first would be judged per kind and the connectors would lie about the shape")
     tf = m.func("Tree.format_iter")
-    ok = has("if title is None:\n    title = False if style == 'list' else True", tf.node) \
-        and has("if title:\n    yield (f'{self}' if title is True else f'{title}')", tf.node)
-    ht = one("$h = title is not False", tf.node)
-    ok = ok and ht is not None and has("self._root.format_iter(repr=repr, style=style, add_self=$h)", tf.node, {"$h": ht[1]["$h"]})
-    O(tf, "Tree.format_iter: title line first iff title is set; root walk with add_self = (title is not False)", ok, "title default/False/text must keep the prefixes consistent")
+    ok = None
+    d_list = find_under(ctx, tf, "title = $$v", [("title is None", True), ("style == 'list'", True)])
+    d_else = find_under(ctx, tf, "title = $$v", [("title is None", True), ("style == 'list'", False)])
+    ys = exit_cases(ctx, tf, ("yield",))
+    tl = [c for c in ys if isinstance(c.stmt, ast.Yield)]
+    walk = [c for c in ys if isinstance(c.stmt, ast.YieldFrom)]
+    if len(d_list) == 1 and len(d_else) == 1 and len(walk) == 1 and tl:
+        ok = norm(d_list[0][1]["$$v"]) == "False" and norm(d_else[0][1]["$$v"]) == "True"
+        # the title line: the tree's own rendering for True, the caller's text otherwise; only when title is truthy; before the walk
+        for c in tl:
+            ts = cond_texts(c.conds)
+            ok = ok and "title" in ts and not_after(ctx, tf, c.stmt, walk[0].stmt)
+        vals = {norm(c.value): cond_texts(c.conds) for c in tl}
+        if len(tl) == 1:
+            ok = ok and norm(tl[0].value) in ("f'{self}' if title is True else f'{title}'", "str(self) if title is True else str(title)")
+        else:
+            ok = ok and any("title is True" in t_ and v_ in ("f'{self}'", "str(self)") for v_, t_ in vals.items()) and any(
+                "not (title is True)" in t_ and v_ in ("f'{title}'", "str(title)", "title") for v_, t_ in vals.items())
+        wc = walk[0].value
+        if isinstance(wc, ast.Call) and norm(wc.func) == "self._root.format_iter":
+            kw = {k.arg: norm(resolve_expr(ctx, tf, walk[0].stmt, k.value)) for k in wc.keywords}
+            ok = ok and kw.get("add_self") in ("title is not False", "not title is False") and kw.get("repr") == "repr" and kw.get("style") == "style" and not walk[0].conds
+        else:
+            ok = None
+    T(tf, "Tree.format_iter: title line first iff title is set; root walk with add_self = (title is not False)", ok, "title default/False/text must keep the prefixes consistent")
     fm = m.func("Node.format")
-    it = one("$it = self.format_iter(repr=repr, style=style, add_self=add_self)", fm.node)
-    ok = it is not None and any(isinstance(n, ast.Return) and match("join.join($it)", n.value, {"$it": it[1]["$it"]}) is not None for n in fm.body)
-    O(fm, "format joins the lines with the caller's join string", ok)
+    rets = [c for c in exit_cases(ctx, fm, ("return",)) if c.value is not None]
+    ok = None
+    if len(rets) == 1:
+        v_ = resolve_expr(ctx, fm, rets[0].stmt, rets[0].value)
+        ok = match("join.join(self.format_iter(repr=repr, style=style, add_self=add_self))", v_) is not None
+    T(fm, "format joins the lines with the caller's join string", ok)
     return obs
+
+
+def P_(text: str) -> ast.AST:
+    return ast.parse(text, mode="eval").body
 
 
 # ------------------------------------------------------------------- C11
